@@ -78,6 +78,18 @@ func runC07_13(c *Ctx) {
 	idM := p.MethodObj(Root, "session", "ID")
 	rs := CallsTo(fn, reset)
 	ss := CallsTo(fn, setID)
+	if len(rs) == 0 && len(ss) == 0 {
+		// the reset/restore tail may have been extracted into a same-package helper (one level): it is analysed there
+		for _, hc := range AllCalls(fn) {
+			h := hc.Common().StaticCallee()
+			if h == nil || h.Pkg != fn.Pkg || len(h.Blocks) == 0 {
+				continue
+			}
+			if hr, hs := CallsTo(h, reset), CallsTo(h, setID); len(hr) == 1 && len(hs) == 1 {
+				rs, ss = hr, hs
+			}
+		}
+	}
 	if len(rs) != 1 || len(ss) != 1 {
 		c.Undec("ModifySocket anchors", p.Pos(fn.Pos()), fmt.Sprintf("expected one socket.Reset and one socket.SetID, found %d/%d", len(rs), len(ss)))
 		return
